@@ -20,7 +20,7 @@ from ..gen import types as G
 
 ID = "C02"
 LEVEL = "exploration"
-ENGINE = "hypothesis"
+ENGINE = "hypothesis (+ atheris/libFuzzer coverage guidance in 4 thorough shards)"
 TECHNIQUE = "property-based testing over a type-hint grammar: independent conformance validator, near-miss catalogue, metamorphic compositionality / Union-permutation relations"
 LEVEL_TEXT = ("Random type hints of the grammar up to depth 3 (quick) / 4 (thorough) with conforming values, single-position near misses, "
               "look-alike strings and all permutations of each Union; soundness is judged by a validator that never consults the library, "
@@ -582,13 +582,18 @@ def fallback_family(ctx, only=None):
 def plan(tier):
     if tier == "quick":
         return [{"kind": "paths"}] + [{"n": 1200, "depth": 3} for _ in range(16)]
-    return [{"kind": "paths"}] + [{"n": 20000, "depth": 4 if i % 2 else 3} for i in range(16)]
+    return [{"kind": "paths"}] + [{"n": 20000, "depth": 4 if i % 2 else 3} for i in range(12)] + [{"kind": "atheris", "n": 40000, "depth": 3} for _ in range(4)]
 
 
 def run_shard(spec, ctx):
     if spec.get("kind") == "paths":
         path_family(ctx)
         return fallback_family(ctx)
+    if spec.get("kind") == "atheris":
+        from ..core import run_atheris
+
+        ctx.cls("engine:atheris")
+        return run_atheris(ctx, case_strategy(spec["depth"]), body(ctx), spec["n"])
     run_given(ctx, case_strategy(spec["depth"]), body(ctx), spec["n"])
 
 
